@@ -16,12 +16,12 @@ package variables
 //@ func Container.Merge
 //@   requires arg0 != nil
 //@   modifies cdom, cval
-//@   ensures result != nil && result != recv && result != arg0
+//@   ensures result != nil && result != recv && result != arg0 && fresh(unboxptr(result)) && allocated(unboxptr(result))
 //@   ensures #view over(result, recv, arg0)
 //@   ensures #operands-untouched forall c Container :: c != result ==> cdom[c] == old(cdom[c]) && cval[c] == old(cval[c])
 //@ func Container.With
 //@   modifies cdom, cval
-//@   ensures result != nil && result != recv
+//@   ensures result != nil && result != recv && fresh(unboxptr(result)) && allocated(unboxptr(result))
 //@   ensures #view forall k string :: (cdom[result][k] <==> (cdom[recv][k] || k == arg0)) && (k == arg0 ==> cval[result][k] == arg1) && (k != arg0 && cdom[recv][k] ==> cval[result][k] == cval[recv][k])
 //@   ensures #operands-untouched forall c Container :: c != result ==> cdom[c] == old(cdom[c]) && cval[c] == old(cval[c])
 //@ func Container.Map
@@ -41,9 +41,10 @@ package variables
 
 //@ func FromMap
 //@   modifies cdom, cval
-//@   ensures result != nil
+//@   ensures result != nil && fresh(unboxptr(result)) && allocated(unboxptr(result))
 //@   ensures #view forall k string :: (cdom[result][k] <==> (k in values)) && ((k in values) ==> cval[result][k] == boxstr(values[k]))
 //@   ensures #others-untouched forall c Container :: c != result ==> cdom[c] == old(cdom[c]) && cval[c] == old(cval[c])
 //@ func NewVariables
 //@   modifies cdom, cval
-//@   ensures result != nil
+//@   ensures result != nil && fresh(result) && allocated(result)
+//@   ensures forall c Container :: unboxptr(c) != result ==> cdom[c] == old(cdom[c]) && cval[c] == old(cval[c])
